@@ -1,10 +1,11 @@
 (* C12 — API-mode modules faithfully reflect the C source and detect mismatches.
-   Statements only; proofs are in C12/Proofs.v (constants) and C12/Proofs2.v (structs).
+   Statements only; proofs are in C12/Proofs.v (constants), C12/Proofs2.v (structs) and
+   C12/Proofs3.v (constants used as array lengths).
    The C expressions and the macro that the constant theorems talk about are the regenerated
    definitions of C12/Gen.v (text of /repo at the time of the run). *)
 From Coq Require Import ZArith List Bool.
 Import ListNotations.
-From Cffi Require Import C12.Spec C12.Gen C12.Model C12.Proofs C12.Proofs2.
+From Cffi Require Import C12.Spec C12.Gen C12.Model C12.Proofs C12.Proofs2 C12.Proofs3.
 Local Open Scope Z_scope.
 
 (* (a) "#define X <e>" / checked integer constant: for every C constant expression of any
@@ -45,6 +46,38 @@ Proof.
 Qed.
 Print Assumptions C12_enumerator_check_refuted.
 
+(* Whatever the regenerated flag says: an enumerator of a non-partial enum is checked exactly
+   like a macro when the recompiler passes its value, and gives the compiler's value silently when
+   it does not (today's source; upstream's test_verify1.py::test_typedef_broken_complete_enum
+   asserts that behaviour, so no fix is proposed for finding enumerator-unchecked). *)
+Theorem C12_enumerator_by_flag : forall T c e,
+  promoted T -> in_range T c -> - 2 ^ 64 < e < 2 ^ 64 ->
+  lib_constant KEnumerator T c (Some e) =
+    Some (if gen_enumerator_checked then (if c =? e then Ok c else Err FFIError) else Ok c).
+Proof. exact enumerator_by_flag. Qed.
+Print Assumptions C12_enumerator_by_flag.
+
+(* the generated check is complete and sound for EVERY kind of declaration that is given a check
+   value [e]: lib.X raises ffi.error iff the C value differs from e (as a mathematical integer:
+   64-bit pattern and sign), and the name used as an array length raises too (except for the
+   C value 0, finding zero-const-array-length). *)
+Theorem C12_checked_declaration_iff : forall k T c cdef e,
+  promoted T -> in_range T c -> - 2 ^ 64 < e < 2 ^ 64 -> check_value_of k cdef = Some e ->
+  lib_constant k T c cdef = Some (if c =? e then Ok c else Err FFIError) /\
+  const_array_length k T c cdef =
+    Some (Ok (if c =? e then length_of_value c
+              else if c =? 0 then PSLen 0 else PSErr PSDisagree)).
+Proof. exact checked_kind_iff. Qed.
+Print Assumptions C12_checked_declaration_iff.
+
+(* "with '...' the compiler's values are used silently": enumerators of 'enum e { A = 5, ... }' *)
+Theorem C12_partial_enumerator_value : forall T c cdef,
+  promoted T -> in_range T c ->
+  lib_constant KEnumeratorPartial T c cdef = Some (Ok c) /\
+  const_array_length KEnumeratorPartial T c cdef = Some (Ok (length_of_value c)).
+Proof. exact partial_enumerator_value. Qed.
+Print Assumptions C12_partial_enumerator_value.
+
 (* cdef values outside (-2^64, 2^64) are not C literals (gcc would truncate them with a
    warning): the recompiler refuses to generate the module, so the declaration is not silently
    accepted.  (The guard is the fix of finding const-beyond-64bit, /repo 52726e0; it is part of the
@@ -53,6 +86,91 @@ Theorem C12_const_literal_outside_C : forall T c e, e <= - 2 ^ 64 \/ 2 ^ 64 <= e
   lib_constant KMacro T c (Some e) = Some (Err BuildError).
 Proof. exact const_literal_outside_C. Qed.
 Print Assumptions C12_const_literal_outside_C.
+
+(* (c) "using that item" also means: writing the constant's NAME as an array length inside a type
+   string given at run time to ffi.typeof()/new()/cast()/sizeof() on the module's ffi.
+   parse_c_type.c parse_sequel() then calls the same generated getter as lib.N and interprets
+   its return code itself.  [gen_ps_const_length] is REGENERATED from those C statements on every
+   run (tools/props/c12_regen.py; Gen.v).
+
+   The decision, for every return code [neg] an int can hold and every 64-bit [value]:
+   code 0 ("positive, agrees"): the value if it fits a ssize_t, else "too large";
+   any other code: a length only when the value is 0 (and then the length is 0);
+   code 1 ("<= 0, agrees") with a non-zero value: "expected a positive integer constant";
+   every other code (2, 3 = "the C compiler disagrees with the cdef") with a non-zero value:
+   "disagreement about this constant's value". *)
+Theorem C12_array_length_decision : forall neg value,
+  - 2 ^ 31 <= neg < 2 ^ 31 -> 0 <= value < 2 ^ 64 ->
+  gen_ps_const_length neg value =
+    if neg =? 0 then (if value <=? 2 ^ 63 - 1 then PSLen value else PSErr PSTooLarge)
+    else if value =? 0 then PSLen 0
+    else if neg =? 1 then PSErr PSNotPositive
+    else PSErr PSDisagree.
+Proof. exact ps_decision. Qed.
+Print Assumptions C12_array_length_decision.
+
+(* in particular the getter's code 2 — a POSITIVE C value that differs from the cdef's; the getter
+   returns code 0 or 2 exactly when the value is > 0 — never yields a length *)
+Theorem C12_array_length_mismatch_code_is_error : forall neg value,
+  - 2 ^ 31 <= neg < 2 ^ 31 -> 0 < value < 2 ^ 64 -> neg <> 0 -> neg <> 1 ->
+  gen_ps_const_length neg value = PSErr PSDisagree.
+Proof. exact ps_mismatch_code_nonzero. Qed.
+Print Assumptions C12_array_length_mismatch_code_is_error.
+
+(* a length that comes out is the getter's value (the compiler's), within ssize_t *)
+Theorem C12_array_length_is_getter_value : forall neg value n,
+  - 2 ^ 31 <= neg < 2 ^ 31 -> 0 <= value < 2 ^ 64 ->
+  gen_ps_const_length neg value = PSLen n -> n = value /\ 0 <= n <= 2 ^ 63 - 1.
+Proof. exact ps_length_is_value. Qed.
+Print Assumptions C12_array_length_is_getter_value.
+
+(* end to end (generated getter with its _cffi_check_int test, then parse_sequel): checked
+   '#define N <e>' against a C constant of any promoted type and value c.
+   c = e: the length is c when 0 <= c <= SSIZE_MAX, an error otherwise (negative / too large);
+   c <> e: an error — EXCEPT when c = 0, see the next two theorems. *)
+Theorem C12_array_length_checked : forall T c e,
+  promoted T -> in_range T c -> - 2 ^ 64 < e < 2 ^ 64 ->
+  const_array_length KMacro T c (Some e) =
+    Some (Ok (if c =? e then length_of_value c
+              else if c =? 0 then PSLen 0 else PSErr PSDisagree)).
+Proof. exact array_length_checked. Qed.
+Print Assumptions C12_array_length_checked.
+
+(* "where a checked integer constant disagrees with the C source, using it raises an error":
+   proved for every C value except 0 (hence _partial) *)
+Theorem C12_array_length_mismatch_raises_partial : forall T c e,
+  promoted T -> in_range T c -> - 2 ^ 64 < e < 2 ^ 64 -> c <> e -> c <> 0 ->
+  const_array_length KMacro T c (Some e) = Some (Ok (PSErr PSDisagree)).
+Proof. exact array_length_mismatch_raises. Qed.
+Print Assumptions C12_array_length_mismatch_raises_partial.
+
+(* ... and false for the C value 0: `if (neg == 0 || gc.value == 0)` accepts the value 0 under
+   every return code, including 3 (= "<= 0" | "disagrees").  Witness: cdef '#define N 5', C source
+   '#define N 0': ffi.typeof("char[N]") is char[0] silently while lib.N raises ffi.error.
+   Replayed on the real code by every run (findings/C12.json, key zero-const-array-length;
+   proposed repair findings/C12-zero-const-array-length.diff). *)
+Theorem C12_array_length_zero_mismatch_refuted :
+  exists T c e, promoted T /\ in_range T c /\ - 2 ^ 64 < e < 2 ^ 64 /\ c <> e /\
+                const_array_length KMacro T c (Some e) = Some (Ok (PSLen 0)).
+Proof.
+  exists s32, 0, 5. split; [left; reflexivity|]. split; [vm_compute; split; discriminate|].
+  split; [split; reflexivity|]. split; [discriminate | vm_compute; reflexivity].
+Qed.
+Print Assumptions C12_array_length_zero_mismatch_refuted.
+
+(* '#define N ...', 'static const <int type> N;' and enumerators (no check value is passed for
+   them, see C12_enumerator_check_refuted): the compiler's value, silently, when it is a valid
+   length *)
+Theorem C12_array_length_unchecked : forall k T c cdef,
+  promoted T -> in_range T c -> check_value_of k cdef = None ->
+  const_array_length k T c cdef = Some (Ok (length_of_value c)).
+Proof. exact array_length_unchecked. Qed.
+Print Assumptions C12_array_length_unchecked.
+
+Theorem C12_array_length_literal_outside_C : forall T c e, e <= - 2 ^ 64 \/ 2 ^ 64 <= e ->
+  const_array_length KMacro T c (Some e) = Some (Err BuildError).
+Proof. exact array_length_literal_outside_C. Qed.
+Print Assumptions C12_array_length_literal_outside_C.
 
 (* What is NOT a theorem here and is decided by the correspondence run only (tools/props/c12.py):
    "calls return what the C function returns", "globals read and write the C object", "global
@@ -131,4 +249,17 @@ Example C12_example_const :
   lib_constant KMacro s64 (- 2 ^ 63) (Some (- 2 ^ 63)) = Some (Ok (- 2 ^ 63)) /\
   lib_constant KMacro u32 0 (Some 0) = Some (Ok 0) /\
   lib_constant KMacro s32 1 (Some (2 ^ 64 + 1)) = Some (Err BuildError).
+Proof. vm_compute. repeat split; reflexivity. Qed.
+
+Example C12_example_array_length :
+  const_array_length KMacro s32 6 (Some 6) = Some (Ok (PSLen 6)) /\
+  const_array_length KMacro s32 9 (Some 6) = Some (Ok (PSErr PSDisagree)) /\
+  const_array_length KMacro s32 3 (Some 12) = Some (Ok (PSErr PSDisagree)) /\
+  const_array_length KMacro s32 (-2) (Some 5) = Some (Ok (PSErr PSDisagree)) /\
+  const_array_length KMacro s32 (-3) (Some (-3)) = Some (Ok (PSErr PSNotPositive)) /\
+  const_array_length KMacro s32 9 None = Some (Ok (PSLen 9)) /\
+  const_array_length KMacro u64 (2 ^ 63) None = Some (Ok (PSErr PSTooLarge)) /\
+  const_array_length KMacro s64 (2 ^ 63 - 1) (Some (2 ^ 63 - 1)) = Some (Ok (PSLen (2 ^ 63 - 1))) /\
+  const_array_length KEnumerator s32 7 (Some 5) = Some (Ok (PSLen 7)) /\
+  check_value_of KMacro None = None /\ check_value_of KEnumerator (Some 5) = None.
 Proof. vm_compute. repeat split; reflexivity. Qed.
